@@ -697,6 +697,7 @@ func (l *irLoader) newFilter(filter ir.FilterExpr, info *filterInfo) (matchFilte
 	case ir.FilterVarTypeIdenticalToOp:
 		lhsVarname := filter.Value.(string)
 		rhsVarname := filter.Args[0].Value.(string)
+		info.Vars[rhsVarname] = struct{}{}
 		result.fn = makeTypesIdenticalFilter(result.src, lhsVarname, rhsVarname)
 
 	case ir.FilterVarTypeIsOp, ir.FilterVarTypeUnderlyingIsOp:
